@@ -389,6 +389,7 @@ func runScaled(c *core.Ctx, B int) {
 		}
 	}
 	runStaged(c, B)
+	runScattered(c, B)
 	runManyBlocks(c, B)
 	c.Bound(bname(B, "shapes"), sn)
 	c.Bound(bname(B, "centre_offsets_lattice_units_per_axis"), offs)
@@ -519,20 +520,22 @@ func runStaged(c *core.Ctx, B int) {
 	c.Bound(bname(B, "staged.second_sphere_centres"), n)
 }
 
-// runScattered: three small spheres, each added by a call of its own, centred on a half-block lattice
-// over 2x2 blocks and their low neighbours (centres inside a block, on a face, on an edge between four
-// blocks): the storage blocks the canvas ends up with form L shapes, diagonals and rows with holes —
+// runScattered: three small spheres, each added by a call of its own, centred inside a block or on its low face / edge (between two / four blocks),
+// over 4x4 blocks around the origin: the storage blocks the canvas ends up with form L shapes, diagonals and rows with holes —
 // sets that no single field (whose blocks form a box) produces — and every sphere is the first one
 // (the owner of storage block 0) once.
 func runScattered(c *core.Ctx, B int) {
 	if B >= 50 {
 		return // block-scaled build only: the real block edge makes every such canvas a multi-second march
 	}
-	cpu, r := 2.0, 0.6 // block edge 6 cells = 3 units
+	// block edge 6 cells = 3 units at 2 cubes per unit; radius 0.9 cells; centres on a block's low
+	// edge / face (local cell 0) or inside it (local cell 4), over the blocks -1..2 in x and y
+	cpu, r := 2.0, 0.45
 	var ctrs [][3]float64
-	for _, x := range []float64{0, 1.5, 3, 4.5, 6} {
-		for _, y := range []float64{0, 1.5, 3, 4.5, 6} {
-			ctrs = append(ctrs, [3]float64{x, y, 1.5})
+	cells := []float64{-2, 0, 4, 6, 10, 12, 16}
+	for _, x := range cells {
+		for _, y := range cells {
+			ctrs = append(ctrs, [3]float64{x / cpu, y / cpu, 1.5})
 		}
 	}
 	far := func(a, b [3]float64) bool {
